@@ -270,6 +270,62 @@ def loop_argument(P, f, head, body, summaries):
                 continue
             return "ranking", "%s falls by at least 1 on each of %d paths round the loop, never rises inside an iteration, and every " \
                 "iteration passes the test `%s`, which leaves the loop when it is used up" % (L.show(r), len(backs), txt)
+        # third form: a countdown that leaves at `x == c`: x - c falls by at least 1 per iteration, never rises inside one,
+        # every iteration passes the test, and x - c >= 0 is an invariant of the loop head (it holds on every way into
+        # the loop and is kept by every path round it)
+        for bid in sorted(body):
+            tb = f.blocks[bid]
+            c = sk(tb.term["cond"]) if tb.term and tb.term.get("cond") is not None and len(tb.succs) == 2 else None
+            if c is None or c.get("k") != "Bin" or c["op"] not in ("==", "!="):
+                continue
+            if (sk(c["a"][0]).get("t") or {}).get("k") not in ("int", "ptr") or (sk(c["a"][1]).get("t") or {}).get("k") not in ("int", "ptr"):
+                continue
+            la_, lb_ = L.lin(c["a"][0]), L.lin(c["a"][1])
+            if la_ is None or lb_ is None or not L.sub(la_, lb_)[0]:
+                continue
+            exit_edge = tb.succs[0] if c["op"] == "==" else tb.succs[1]
+            if exit_edge is None or exit_edge in body:
+                continue
+            for r in (L.sub(la_, lb_), L.sub(lb_, la_)):
+                r0 = cursorw._ev(r, st0)
+                if r0 is None:
+                    continue
+                if not _monotone_down(f, body, r) or not _on_every_cycle(f, head, body, bid):
+                    continue
+                # induction step: assume r >= 0 at the head, walk the body again
+                w2 = TW(P, f, summaries)
+                st1 = st0.copy()
+                at_, bd_ = sym._norm(r0)
+                st1.cons.append((at_, bd_))
+                try:
+                    backs2 = w2.body_walk(head, st1, record=False)
+                except AnalysisBroken:
+                    continue
+                okk = bool(backs2)
+                for s1 in backs2:
+                    r1 = cursorw._ev(r, s1)
+                    if r1 is None or not w2.implied(s1, r1):
+                        okk = False
+                        break
+                    dec = L.sub(r0, r1)
+                    if not w2.implied(s1, (dec[0], dec[1] - 1)):
+                        okk = False
+                        break
+                if not okk:
+                    continue
+                # base: on every way into the loop
+                w3 = TW(P, f, summaries)
+                ins = []
+                try:
+                    w3._walk(f.entry, sym.State(), frozenset(), ins, None, stop_at=head)
+                except AnalysisBroken:
+                    continue
+                if not ins:
+                    continue
+                if all((lambda rr: rr is not None and w3.implied(s_in, rr))(cursorw._ev(r, s_in)) for s_in in ins):
+                    return "ranking", "%s falls by at least 1 on each of %d paths round the loop, never rises inside an iteration, is " \
+                        "not negative on any of the %d ways into the loop and stays so, and every iteration passes the test `%s`, " \
+                        "which leaves the loop when it reaches 0" % (L.show(r), len(backs2), len(ins), pp(c)[:40])
         why = "no comparison of the loop yields a quantity that falls on every path round it (%d paths, %d candidates)" % (len(backs), len(forms))
     # --- modular countdown: `while (x) { y--; if (y % K == 0) x--; }` with x unsigned: at most K * x iterations
     if backs:
